@@ -104,7 +104,8 @@ class C08(E1Check):
         return 3000 if tier == "quick" else 40000
 
     def hash_modes(self, tier: str, program: Any) -> tuple:
-        return (0,)
+        # thorough: both iteration orders of the task sets that anyio walks when it delivers a cancellation
+        return (0,) if tier == "quick" else (0, 1)
 
     async def main(self, env: Any, program: dict) -> None:
         from asphalt.core import Context, add_teardown_callback, current_context
